@@ -261,6 +261,11 @@ def attribute(ur, unit_files_prefix=''):
             parts = ob.split('|')
             props.add(parts[0].split('.')[0]); props |= set(parts[1:])
             obname = parts[0]
+            if d.get('message', '').startswith('precondition not satisfied') and fn and fn in fnprops:
+                # a callee's requires clause failing at a call site speaks about the properties the CALLER is under contract for
+                caller = set(fnprops[fn].get('props') or [])
+                if props & caller: props &= caller
+                obname = '%s@%s' % (obname, fn)
         else:
             obname = None
             if fn and fn in fnprops:
